@@ -86,6 +86,14 @@ def run_case(case, tier):
     except Exception as e:
         res.update(verdict="inconclusive", reason="refused", refusal=P.refusal_key(e))
         return res
+    abstracted = bool(getattr(program, "abstracted_const_store", {}))
+    if abstracted:
+        av = K.abstraction_values(program, prog, params)
+        if av is None:
+            res.update(verdict="inconclusive", reason="abstraction-outside-oracle")
+            return res
+        values.update(av)
+        res["events"]["abstracted-conditions"] = len(av)
     compared_goals = 0
     nontrivial = False
     sample_rows = []
